@@ -12,9 +12,11 @@ import (
 
 	"github.com/AdguardTeam/AdGuardDNS/internal/agd"
 	"github.com/AdguardTeam/AdGuardDNS/internal/connlimiter"
+	"github.com/AdguardTeam/AdGuardDNS/internal/dnsmsg"
 	"github.com/AdguardTeam/AdGuardDNS/internal/dnsserver/forward"
 	"github.com/AdguardTeam/AdGuardDNS/internal/dnsserver/ratelimit"
 	"github.com/AdguardTeam/AdGuardDNS/internal/dnssvc"
+	"github.com/AdguardTeam/AdGuardDNS/internal/filter"
 	"gopkg.in/yaml.v2"
 )
 
@@ -127,4 +129,70 @@ func ifaceBufSize(c *interfaceListenersConfig) (n int) {
 // VerifC20DNSDB reports whether the DNSDB is enabled and its maximum size.
 func (v *VerifC20Conf) VerifC20DNSDB() (enabled bool, maxSize int) {
 	return v.c.DNSDB.Enabled, v.c.DNSDB.MaxSize
+}
+
+// verifC20Storage is a filter storage that knows a fixed set of rule-list IDs.
+type verifC20Storage struct {
+	ids map[filter.ID]struct{}
+}
+
+// type check
+var _ filter.Storage = (*verifC20Storage)(nil)
+
+// ForConfig implements the [filter.Storage] interface for *verifC20Storage.
+func (s *verifC20Storage) ForConfig(_ context.Context, _ filter.Config) (f filter.Interface) {
+	return filter.Empty{}
+}
+
+// HasListID implements the [filter.Storage] interface for *verifC20Storage.
+func (s *verifC20Storage) HasListID(id filter.ID) (ok bool) {
+	_, ok = s.ids[id]
+
+	return ok
+}
+
+// VerifC20ServerGroups resolves the cross-references of the configuration in
+// the order and with the methods the builder uses: the interface listeners, the
+// filtering groups (against a filter index that contains indexIDs) and the
+// server groups.  stage names the conversion that has returned err.
+func (v *VerifC20Conf) VerifC20ServerGroups(
+	ctx context.Context,
+	l *slog.Logger,
+	indexIDs []string,
+) (grps []*agd.ServerGroup, stage string, err error) {
+	c := v.c
+
+	btdCtrlConf, _ := c.Network.toInternal()
+	btdMgr, err := c.InterfaceListeners.toInternal(l, nil, btdCtrlConf)
+	if err != nil {
+		return nil, "interface_listeners", err
+	}
+
+	strg := &verifC20Storage{ids: map[filter.ID]struct{}{}}
+	for _, id := range indexIDs {
+		strg.ids[filter.ID(id)] = struct{}{}
+	}
+
+	fltGrps, err := c.FilteringGroups.toInternal(strg)
+	if err != nil {
+		return nil, "filtering_groups", err
+	}
+
+	msgs, err := dnsmsg.NewConstructor(&dnsmsg.ConstructorConfig{
+		Cloner:              dnsmsg.NewCloner(dnsmsg.EmptyClonerStat{}),
+		BlockingMode:        &dnsmsg.BlockingModeNullIP{},
+		StructuredErrors:    &dnsmsg.StructuredDNSErrorsConfig{Enabled: false},
+		FilteredResponseTTL: c.Filters.ResponseTTL.Duration,
+		EDEEnabled:          c.Filters.EDEEnabled,
+	})
+	if err != nil {
+		return nil, "messages", err
+	}
+
+	grps, err = c.ServerGroups.toInternal(ctx, msgs, btdMgr, verifC20TLS{}, fltGrps, c.RateLimit, c.DNS)
+	if err != nil {
+		return nil, "server_groups", err
+	}
+
+	return grps, "", nil
 }
